@@ -7,6 +7,8 @@
   xorSkipsParentheses / bodyEscapesKeywords   the expression printer for derived attributes and WHERE rules (ATTRIBUTE_INITIALIZER*__out,
                    WHEREPrint): operator texts, parenthesisation and literal cases pinned; the two flags say whether XOR hands previous_op
                    down and whether identifiers / rule labels are keyword-escaped
+  skipIsContinue   STATEMENTPrint writes `continue` for SKIP; the assignment / RETURN / ESCAPE / IF / REPEAT cases and the identifier
+                   and XOR cases of EXPRESSION__out are pinned as modelled in GenPyStmt.lean
   repeatBoundInclusive   LOOPpyout writes range(a, (b) + (1 if (s) > 0 else -1), s) for REPEAT i := a TO b BY s (else range(a, b, s))
   runtimePackage   the package the emitted module imports its runtime from (classes_wrapper_python.cc preamble)
   sortsBases       LIBdescribe_entity sorts the supertype list with LISTsort(…, cmp_python_mro) before emitting the bases
@@ -209,6 +211,34 @@ def extract(repo):
     reserved = sorted({w.lower() for w in re.findall(r'\{\s*"([A-Za-z_0-9]+)"\s*,\s*TOK_\w+\s*\}', mt.group(1))})
     if len(reserved) < 100 or "entity" not in reserved or "end_schema" not in reserved:
         raise ValueError("lexact.c: the keyword table was not read completely (%d words)" % len(reserved))
+    # ---- STATEMENTPrint: the statements of the modelled fragment
+    i = c.find("\nSTATEMENTPrint( Statement s, int indent_level, FILE * file ) {")
+    j = c.find("\nCASEout( struct Case_Statement_ *c, int level, FILE * file ) {", i)
+    if i < 0 or j < 0:
+        raise ValueError("STATEMENTPrint not found")
+    st = sq(c[i:j])
+    for need in ('case STMT_ASSIGN: EXPRESSION_out( s->u.assign->lhs, 0, file ); fprintf( file, " = " ); EXPRESSION_out( s->u.assign->rhs, 0, file ); fprintf( file, "\\n" ); break;',
+                 'case STMT_RETURN: fprintf( file, "return " ); if( s->u.ret->value ) { EXPRESSION_out( s->u.ret->value, 0, file ); } fprintf( file, "\\n" ); break;',
+                 'case STMT_ESCAPE: fprintf( file, "break\\n" ); break;',
+                 'case STMT_COND: fprintf( file, "if (" ); EXPRESSION_out( s->u.cond->test, 0 , file ); fprintf( file, "):\\n" ); STATEMENTlist_out( s->u.cond->code, indent_level + 1, file ); '
+                 'if( s->u.cond->otherwise ) { python_indent( file, indent_level ); fprintf( file, "else:\\n" ); STATEMENTlist_out( s->u.cond->otherwise, indent_level + 1, file ); } break;',
+                 'case STMT_LOOP: LOOPpyout( s->u.loop, indent_level , file ); break;'):
+        if need not in st:
+            raise ValueError("STATEMENTPrint: no longer as modelled: " + need[:50])
+    if 'case STMT_SKIP: fprintf( file, "continue\\n" ); break;' in st:
+        skip_cont = True
+    elif 'case STMT_SKIP: fprintf( file, "break\\n" ); break;' in st:
+        skip_cont = False
+    else:
+        raise ValueError("STATEMENTPrint: SKIP is written in neither of the two modelled ways")
+    # EXPRESSION__out: identifiers keyword-escaped, XOR through the parenthesising macro (exprCfg of GenPyStmt.lean)
+    i = c.find("\nEXPRESSION__out( Expression e, int paren, Op_Code previous_op, FILE* file ) {")
+    j = c.find("\nATTRIBUTE_INITIALIZERop__out(", i)
+    eo = sq(c[i:j])
+    if 'case entity_: case identifier_: if( is_python_keyword( e->symbol.name ) ) { fprintf( file, "%s_", e->symbol.name ); } else { fprintf( file, "%s", e->symbol.name ); } break;' not in eo:
+        raise ValueError("EXPRESSION__out: identifiers are no longer keyword-escaped as modelled")
+    if 'case OP_XOR: EXPRESSIONop2_out( oe, " != ", paren, PAD, file ); break;' not in sq(c):
+        raise ValueError("EXPRESSIONop__out: XOR no longer goes through the parenthesising macro")
     lst = ", ".join('"%s"' % i for i in items)
     out = f"""-- GENERATED by tools/extract.d/genpy.py from src/exp2python/src/classes_python.c, classes_wrapper_python.cc
 namespace StepModel.Generated
@@ -232,6 +262,8 @@ def bodyEscapesKeywords : Bool := {"true" if body_esc else "false"}
 /-- `LOOPpyout` writes the stop value of `range()` as `(b) + (1 if (s) > 0 else -1)` (the bound is the last value of the
 loop variable); `false`: the bound itself -/
 def repeatBoundInclusive : Bool := {"true" if rep_incl else "false"}
+/-- `STATEMENTPrint` writes `continue` for SKIP (`false`: `break`) -/
+def skipIsContinue : Bool := {"true" if skip_cont else "false"}
 /-- the package named in the emitted import preamble -/
 def runtimePackage : String := "{pk[0]}"
 /-- `LISTsort(supertypes, cmp_python_mro)` is applied before the base classes are emitted -/
